@@ -164,11 +164,12 @@ FamTags(lz) == {TagG(x, ws) : x \in TagT2(0) \cup TagT3(0), ws \in BOOLEAN}
 \*   r = m{ BODY }   q = qm{ "b" | "ab" }   s = { "a" ~ "b"? }    + trivia per config
 \* squash_choice: choices of literals / insensitive literals / ranges / classes, every order, shared prefixes
 SqAtoms  == {Str(<<a>>), Str(<<b>>), Str(<<a, b>>), Str(<<b, a>>), IStr(<<a>>), IStr(<<a, b>>), IStr(<<a, b, a>>), Str(<<a, b, a>>), Rng(a, b),
-             Cls("ASCII_ALPHA_UPPER"), Ref("q")}
-SqAtomsS == {Str(<<a>>), Str(<<a, b>>), IStr(<<b>>), Rng(a, a), IStr(<<a, b, a>>)}
+             Cls("ASCII_ALPHA_UPPER"), Ref("q"), Str(<<>>), IStr(<<>>)}
+SqAtomsS == {Str(<<a>>), Str(<<a, b>>), IStr(<<b>>), Rng(a, a), IStr(<<a, b, a>>), Str(<<>>)}
 SqChoices(lz) == {AltE(<<x, y>>) : x \in SqAtoms, y \in SqAtoms} \cup {AltE(<<x, y, z>>) : x \in SqAtomsS, y \in SqAtomsS, z \in SqAtomsS}
              \cup {AltE(<<x, AltE(<<y, z>>)>>) : x \in SqAtomsS, y \in SqAtomsS, z \in {Str(<<b>>), Ref("q")}}
-SqBodies(lz) == UNION {{ch, SeqE(<<ch, Str(<<b>>)>>), SeqE(<<ch, Eoi>>), Star(ch), SeqE(<<Plus(ch), Str(<<a>>)>>)} : ch \in SqChoices(0)}
+SqBodies(lz) == UNION {{ch, SeqE(<<ch, Str(<<b>>)>>), SeqE(<<ch, Eoi>>)} \cup (IF Prog(ch) THEN {Star(ch), SeqE(<<Plus(ch), Str(<<a>>)>>)} ELSE {})
+                         : ch \in SqChoices(0)}
 \* skip: (!(x | y) ~ ANY)* and near misses
 SkTargets == {Str(<<b>>), AltE(<<Str(<<b>>), Str(<<a, b>>)>>), Ref("q"), AltE(<<Ref("q"), Str(<<sp>>)>>), AltE(<<Str(<<b>>), Rng(a, a)>>),
               Ref("k"), Ref("z"), AltE(<<Ref("k"), Str(<<A>>)>>),
